@@ -55,6 +55,15 @@ theorem hK_succ (f : Nat) (s : Store P) (i lg : Nat) (h : lg ≠ i) :
     hK (f + 1) s i lg = hStep s i lg >>= fun b => hK f b.1 b.2.1 b.2.2 := by
   simp only [hK, hStep, h, ↓reduceIte, MaxQ.heapifyLoop, bind_assoc, pure_bind]
 
+/-- the selection before the Rust loop, in the hand model's terms -/
+def hPick (s : Store P) (i : Nat) : R (Store P × Nat × Nat) := do
+  let r ← MaxQ.pickLargest s i
+  pure (r.1, i, r.2)
+
+theorem heapifyLoop_succ (f : Nat) (s : Store P) (i : Nat) :
+    MaxQ.heapifyLoop (f + 1) s i = hPick s i >>= fun b => hK f b.1 b.2.1 b.2.2 := by
+  simp only [MaxQ.heapifyLoop, hK, hPick, bind_assoc, pure_bind]
+
 def proj03 (st : St P) : Store P × Nat × Nat := (st.s, st.n 0, st.n 3)
 
 theorem pqHeapify_loop_body (g : Nat) (st : St P) :
@@ -110,100 +119,46 @@ theorem pqHeapify_part1_eq (g : Nat) (st : St P) (h : ¬ st.s.size ≤ 1) :
     (fun r => (proj03 r.1, r.2)) <$>
         execStep (exec prog (g + 1)) (callWith (exec prog (g + 1)) prog) pqHeapify_part1 st
       = (fun b => (b, Flow.normal)) <$>
-        (do let r ← MaxQ.pickLargest st.s (st.n 0); pure (r.1, st.n 0, r.2)) := by
-  src_eval [SrcGen.pqHeapify_part1, call_storePrioAt, MaxQ.pickLargest, proj03, h]
+        hPick st.s (st.n 0) := by
+  src_eval [SrcGen.pqHeapify_part1, call_storePrioAt, MaxQ.pickLargest, proj03, hPick, h]
   src_close
 
 /-! the hand model's loop never runs out of its fuel -/
 
-theorem swap_size {s s' : Store P} {a b : Nat} (h : s.swap a b = .ok s') : s'.size = s.size := by
-  unfold Store.swap at h
-  cases h1 : getU s.heap a 101 with
-  | error e => simp [h1, error_bind] at h
-  | ok ia =>
-    cases h2 : getU s.heap b 102 with
-    | error e => simp [h1, h2, error_bind, ok_bind] at h
-    | ok ib =>
-      cases h3 : swapC s.qp ia ib 103 with
-      | error e => simp [h1, h2, h3, error_bind, ok_bind] at h
-      | ok qp =>
-        cases h4 : swapC s.heap a b 104 with
-        | error e => simp [h1, h2, h3, h4, error_bind, ok_bind] at h
-        | ok heap =>
-          simp only [h1, h2, h3, h4, ok_bind, pure, Except.pure, Except.ok.injEq] at h
-          subst h; rfl
+theorem swap_post (s : Store P) (a b : Nat) : Post (s.swap a b) (fun s' => s'.size = s.size) := by
+  unfold Store.swap
+  exact Post.bind (Post.triv _) fun _ _ => Post.bind (Post.triv _) fun _ _ => Post.bind (Post.triv _) fun _ _ =>
+    Post.bind (Post.triv _) fun _ _ => Post.pure rfl
 
-theorem pickLargest_spec {s s' : Store P} {i lg : Nat} (h : MaxQ.pickLargest s i = .ok (s', lg)) :
-    s'.size = s.size ∧ (lg = i ∨ (i < lg ∧ lg < s.size)) := by
-  unfold MaxQ.pickLargest at h
-  cases h0 : s.prioAt i with
-  | error e => simp [h0, error_bind] at h
-  | ok ip =>
-    simp only [h0, ok_bind] at h
-    split at h
-    · rename_i hl
-      cases h1 : s.prioAt (Arith.left i) with
-      | error e => simp [h1, error_bind] at h
-      | ok cp =>
-        simp only [h1, ok_bind, size_tick, prioAt_tick] at h
-        split at h
-        · rename_i hr
-          cases h2 : s.prioAt (Arith.right i) with
-          | error e => simp [h2, error_bind] at h
-          | ok rp =>
-            simp only [h2, ok_bind, pure, Except.pure, Except.ok.injEq, Prod.mk.injEq] at h
-            obtain ⟨hs, hlg⟩ := h
-            subst hs
-            refine ⟨rfl, ?_⟩
-            simp only [Arith.left, Arith.right] at *
-            subst hlg
-            repeat' split
-            all_goals omega
-        · simp only [pure, Except.pure, Except.ok.injEq, Prod.mk.injEq] at h
-          obtain ⟨hs, hlg⟩ := h
-          subst hs
-          refine ⟨rfl, ?_⟩
-          simp only [Arith.left] at *
-          subst hlg
-          split <;> omega
-    · simp only [pure, Except.pure, Except.ok.injEq, Prod.mk.injEq] at h
-      obtain ⟨hs, hlg⟩ := h
-      subst hs; subst hlg
-      exact ⟨rfl, Or.inl rfl⟩
-
+theorem pickLargest_post (s : Store P) (i : Nat) :
+    Post (MaxQ.pickLargest s i) (fun r => r.1.size = s.size ∧ (r.2 = i ∨ (i < r.2 ∧ r.2 < s.size))) := by
+  unfold MaxQ.pickLargest
+  refine Post.bind (Post.triv _) fun ip _ => Post.ite (fun hl => ?_) (fun _ => Post.pure ⟨rfl, Or.inl rfl⟩)
+  refine Post.bind (Post.triv _) fun cp _ => Post.ite (fun hr => Post.bind (Post.triv _) fun rp _ => Post.pure ⟨rfl, ?_⟩)
+    (fun _ => Post.pure ⟨rfl, ?_⟩)
+  all_goals
+    simp only [Arith.left, Arith.right, size_tick] at *
+    repeat' split
+    all_goals omega
 theorem pickLargest_noFuel (s : Store P) (i : Nat) : NoFuel (MaxQ.pickLargest s i) := by
   unfold MaxQ.pickLargest
   have h := fun (s : Store P) i => NoFuel.prioAt s i
   no_fuel
 
-theorem heapifyLoop_ne_fuel (f : Nat) : ∀ (s : Store P) (i : Nat), 1 ≤ f → s.size ≤ f + i →
-    MaxQ.heapifyLoop f s i ≠ .error .fuel := by
+theorem heapifyLoop_noFuel (f : Nat) : ∀ (s : Store P) (i : Nat), 1 ≤ f → s.size ≤ f + i →
+    NoFuel (MaxQ.heapifyLoop f s i) := by
   induction f with
   | zero => intro s i h; omega
   | succ f ih =>
     intro s i _ hsz
     rw [MaxQ.heapifyLoop]
-    cases hp : MaxQ.pickLargest s i with
-    | error e =>
-      have := pickLargest_noFuel s i
-      rw [hp] at this
-      exact this
-    | ok r =>
-      obtain ⟨s', lg⟩ := r
-      have hspec := pickLargest_spec hp
-      simp only [ok_bind]
-      split
-      · exact NoFuel.pure _
-      · rename_i hne
-        cases hs : s'.swap i lg with
-        | error e =>
-          have := NoFuel.swap s' i lg
-          rw [hs] at this
-          exact this
-        | ok s'' =>
-          simp only [ok_bind]
-          have h2 := swap_size hs
-          refine ih s'' lg ?_ ?_ <;> omega
+    refine NoFuel.bind (pickLargest_noFuel s i) fun r hr => ?_
+    have hspec := pickLargest_post s i r hr
+    obtain ⟨s', lg⟩ := r
+    refine NoFuel.ite (fun _ => NoFuel.pure _) fun hne => NoFuel.bind (NoFuel.swap _ _ _) fun s'' hs => ?_
+    have h2 := swap_post s' i lg s'' hs
+    simp only at hspec h2
+    exact ih s'' lg (by omega) (by omega)
 
 /-- `PriorityQueue::heapify` = `MaxQ.heapify` -/
 theorem pqHeapify (s : Store P) (i : Nat) (fuel : Nat) (h : fuel ≥ s.size + 2) :
@@ -215,11 +170,19 @@ theorem pqHeapify (s : Store P) (i : Nat) (fuel : Nat) (h : fuel ≥ s.size + 2)
   · src_eval [pqHeapify_body, pqHeapify_part1, hsz]
   · simp only [hsz, ↓reduceIte]
     obtain ⟨n, hn⟩ : ∃ n, s.size = n + 1 := ⟨s.size - 1, by omega⟩
-    have hne := heapifyLoop_ne_fuel s.size s i (by omega) (by omega)
-    rw [hn, MaxQ.heapifyLoop] at hne ⊢
+    have hne := heapifyLoop_noFuel s.size s i (by omega) (by omega)
+    rw [hn, heapifyLoop_succ] at hne ⊢
     rw [pqHeapify_body, execStep_seq]
     have h1 := agrees_of_map_eq proj03 _ _ (pqHeapify_part1_eq k
       { s := s, n := bindN [0] [i], p := bindP [] [] } hsz)
-    sorry
+    simp only [bindN, upd, ↓reduceIte] at h1
+    refine Agrees.bindFin h1 ?_
+    intro st' b hy hrel
+    subst hrel
+    rw [exec_succ]
+    refine Agrees.fin_unit (pqHeapify_loop n k st' (by omega) ?_)
+    have := hne
+    unfold NoFuel at this
+    simpa only [hy, ok_bind, proj03] using this
 
 end PQ.SrcEquiv
